@@ -854,6 +854,8 @@ class Interp:
             st.sys.add_le(ea, r.e.scale(1 << int(cb)) + ((1 << int(cb)) - 1))      # x < 2^k * (x >> k + 1)
             return r
         if base == "Shl" and cb is not None and unsigned:
+            if int(cb) > 200:
+                return self.top_num(st, tres)
             ideal = ea.scale(1 << int(cb))
             if self.fits(st, ideal, tres):
                 return Num(ideal)
